@@ -4,6 +4,7 @@ package main
 
 import (
 	"bytes"
+	"encoding/json"
 	"io"
 	"os"
 	"sort"
@@ -301,20 +302,13 @@ func c10one(g *rng, big bool, reput bool) c10seq {
 		cfg.Threshold = np + 60 + g.intn(600)
 	}
 	cfg.CLimit = []int{1, 2, 3, 4, 8, 128, 1 + g.intn(128)}[g.intn(7)]
-	cfg.SLimit = []int{1 + g.intn(128), 1 + g.intn(128), 4096, 8 << 20}[g.intn(4)]
-	cfg.Chunk = 1 << 30 // the zstd decoder fills the head buffer (observed through the results only)
+	cfg.SLimit = []int{1 + g.intn(128), 1 + g.intn(128), 4096, 100000}[g.intn(4)]
+	cfg.Chunk = 65536 // the zstd decoder fills the head buffer (observed through the results only)
 	seq.Cfg = cfg
 	dir, err := os.MkdirTemp("", "verif-c10-")
 	must(err)
 	defer os.RemoveAll(dir)
-	t := newTree(dir, uint64(cfg.Depth), fstree.WithNoSync(true), fstree.WithCombinedCountLimit(cfg.CLimit),
-		fstree.WithCombinedSizeLimit(cfg.SLimit), fstree.WithCombinedSizeThreshold(cfg.Threshold),
-		fstree.WithCombinedWriteInterval(2*time.Millisecond))
-	if cfg.Generic {
-		t.VerifForceGenericWriter()
-	} else if !t.VerifUsesLinuxWriter() {
-		seq.Cfg.Generic = true
-	}
+	t := c10tree(dir, &seq.Cfg)
 	r := &c10run{t: t, g: g, seq: &seq}
 	// one object per address (addresses are content hashes) + spare objects for the re-put stream
 	nobj := c10Addrs
@@ -436,25 +430,105 @@ func c10one(g *rng, big bool, reput bool) c10seq {
 	return seq
 }
 
+func c10tree(dir string, cfg *c10cfg) *fstree.FSTree {
+	t := newTree(dir, uint64(cfg.Depth), fstree.WithNoSync(true), fstree.WithCombinedCountLimit(cfg.CLimit),
+		fstree.WithCombinedSizeLimit(cfg.SLimit), fstree.WithCombinedSizeThreshold(cfg.Threshold),
+		fstree.WithCombinedWriteInterval(2*time.Millisecond))
+	if cfg.Generic {
+		t.VerifForceGenericWriter()
+	} else if !t.VerifUsesLinuxWriter() {
+		cfg.Generic = true
+	}
+	return t
+}
+
+func toInt(v any) int { f, _ := v.(float64); return int(f) }
+
+func toItems(v any) [][3]int {
+	var res [][3]int
+	for _, e := range v.([]any) {
+		x := e.([]any)
+		res = append(res, [3]int{toInt(x[0]), toInt(x[1]), toInt(x[2])})
+	}
+	return res
+}
+
+// c10replay re-executes the operations of a recorded history (replay files)
+func c10replay(in c10seq, g *rng) c10seq {
+	seq := c10seq{Cfg: in.Cfg, Objs: in.Objs, Reput: in.Reput}
+	dir, err := os.MkdirTemp("", "verif-c10-")
+	must(err)
+	defer os.RemoveAll(dir)
+	t := c10tree(dir, &seq.Cfg)
+	r := &c10run{t: t, g: g, seq: &seq}
+	for _, s := range in.Objs {
+		r.objs = append(r.objs, mkObj(s))
+	}
+	content := make([]int, c10Addrs)
+	for i := range content {
+		content[i] = i
+	}
+	for _, o := range in.Ops {
+		switch o[0].(string) {
+		case "P":
+			r.puts(toItems(o[1]))
+		case "B":
+			r.batch(toItems(o[1]))
+		case "D":
+			r.del(toInt(o[1]))
+		case "G":
+			if toInt(o[6]) == 9 {
+				r.exists(toInt(o[2]))
+			} else {
+				r.get(toInt(o[6]), toInt(o[2]), toInt(o[5]))
+			}
+		case "E":
+			r.exists(toInt(o[1]))
+		case "I":
+			r.iterate(content)
+		}
+	}
+	must(t.Close())
+	return seq
+}
+
 func c10(args []string) {
 	g := newRng()
+	if len(args) > 0 && args[0] == "replay" {
+		var in []c10seq
+		must(json.NewDecoder(os.Stdin).Decode(&in))
+		for _, s := range in {
+			emit(c10replay(s, g))
+		}
+		return
+	}
 	if len(args) > 0 && args[0] == "probe" {
 		o := mkObj(c10Spec{SigK: 3, AttrK: 2, PLen: 10, Seed: 7, PF: true})
 		emit(map[string]any{"raw": len(o.raw), "canon_eq_raw": bytes.Equal(o.raw, o.canon), "z": len(o.z)})
 		return
 	}
-	n, nbig, nre := 150, 3, 12
+	n, nbig, nre := 100, 3, 10
 	if thorough() {
-		n, nbig, nre = 1500, 30, 120
+		n, nbig, nre = 1200, 24, 100
 	}
-	for i := 0; i < n; i++ {
-		emit(c10one(g, false, false))
+	// every history has its own PRNG stream derived from the master seed; they run on a few workers
+	total := n + nbig + nre
+	res := make([]c10seq, total)
+	var wg sync.WaitGroup
+	sem := make(chan struct{}, 6)
+	for i := 0; i < total; i++ {
+		gi := &rng{s: g.next()}
+		wg.Add(1)
+		sem <- struct{}{}
+		go func(i int, gi *rng) {
+			defer wg.Done()
+			defer func() { <-sem }()
+			res[i] = c10one(gi, i >= n && i < n+nbig, i >= n+nbig)
+		}(i, gi)
 	}
-	for i := 0; i < nbig; i++ {
-		emit(c10one(g, true, false))
-	}
-	for i := 0; i < nre; i++ {
-		emit(c10one(g, false, true))
+	wg.Wait()
+	for i := range res {
+		emit(res[i])
 	}
 }
 
